@@ -201,6 +201,64 @@ def run_history(DESC, hist, tmp, rnd, pool, detail=None):
     return tr, why
 
 
+CRASH_CHILD = r'''
+import json, os, sqlite3, sys
+sys.path.insert(0, sys.argv[1])
+from flow.record import RecordDescriptor
+from flow.record.adapter.sqlite import SqliteWriter
+path, batch, npend, payload = sys.argv[2], int(sys.argv[3]), int(sys.argv[4]), int(sys.argv[5])
+A = RecordDescriptor("select/from", [("string", "a"), ("varint", "n")])
+def look():
+    con = sqlite3.connect(path, timeout=0.3)
+    try:
+        return [int(r[0]) for r in con.execute('SELECT _source FROM "select/from" ORDER BY _rowid_')]
+    except sqlite3.OperationalError:
+        return out[-1]          # the writer holds the file exclusively (it has spilled pages): nobody can see anything new
+    finally:
+        con.close()
+out = []
+w = SqliteWriter(path, batch_size=batch)
+for i in range(1, batch + 1):
+    w.write(A("c" * 50, i, _source=str(i)))
+out.append(look())
+w.close()
+out.append(look())
+w = SqliteWriter(path, batch_size=batch)                  # a new session; npend < batch: its batch never completes
+for i in range(batch + 1, batch + npend + 1):
+    w.write(A("p" * payload, i, _source=str(i)))
+out.append(look())
+sys.stdout.write(json.dumps(out) + "\n")
+sys.stdout.flush()
+os._exit(42)                                            # the process dies: no close, no commit
+'''
+
+
+def crash_trace(tmp, batch, npend, payload):
+    """one committed batch, then a writer that dies in the middle of a batch large enough for SQLite to have spilled part of
+    it to the file -> trace for Trace_Sqlite (aggregated `writes` events; the last observation is taken after the death)"""
+    import subprocess, sys
+
+    p = os.path.join(tmp, "crash.sqlite")
+    for f in glob.glob(p + "*"):
+        os.remove(f)
+    pr = subprocess.run(["/venv/bin/python", "-c", CRASH_CHILD, os.path.realpath(common.REPO), p, str(batch), str(npend), str(payload)], stdout=subprocess.PIPE, stderr=subprocess.PIPE, text=True, timeout=600)
+    if pr.returncode != 42:
+        raise MachineryError(f"crash child failed: rc={pr.returncode} {pr.stderr[-300:]}")
+    looks = json.loads(pr.stdout.strip().splitlines()[-1])
+    obs = sqlite3.connect(p)
+    after = observe_db(obs)
+    obs.close()
+    cols = {t: [] for t in TBL}
+    cols["ta"] = ["a", "n"]
+
+    def ev(op, rows_ta, **kw):
+        return dict({"op": op, "ccols": cols, "crows": dict({t: [] for t in TBL}, ta=rows_ta)}, **kw)
+
+    return [{"op": "open", "batch": batch}, ev("writes", looks[0], d="A", n=batch), ev("close", looks[1]), ev("reopen", looks[1]),
+            ev("writes", looks[2], d="A", n=npend),
+            {"op": "crash", "ccols": after[0], "crows": after[1]}]
+
+
 def simulate(ctx, n, depth):
     d = common.scratch("c18sim")
     tlc.run("Sqlite", "Sim_Sqlite.cfg", simulate=f"file={d}/tr,num={n}", depth=depth, workers=1, seed=ctx.seed + 1, cont=False)
@@ -253,7 +311,8 @@ def run(tier):
     ctx = check.Ctx(PROP, tier)
     thorough = tier == "thorough"
     ctx.design("Sqlite", "MC_Sqlite.cfg", "exhaustive: 6 descriptors (four share a table), <=6 writes, batch 1..4, flush/close anywhere, <=2 writer sessions on the file",
-               actions=("Write", "Flush", "Close", "Reopen"), workers=8)
+               actions=("Write", "Flush", "Close", "Reopen", "Crash"), workers=8)
+    ctx.sensitivity("Sqlite", "MC_Sqlite_dev_CrashKeepsSpilledPages.cfg", "spilled pages that survive the writer's death must violate AtBoundary", "AtBoundary", workers=4)
     ctx.sensitivity("Sqlite", "MC_Sqlite_dev_SessionSkipsEvolution.cfg", "a later session that does not add columns to an existing table must violate OneColumnPerField", "OneColumnPerField", workers=4)
     if thorough:
         ctx.sensitivity("Sqlite", "MC_Sqlite_dev_CloseNoCommit.cfg", "close without commit must violate ClosedCommitted", "ClosedCommitted", workers=4)
@@ -282,6 +341,12 @@ def run(tier):
         traces.append(tr)
         whys.append(why)
         ctx.case(hist_key(h))
+    # the writer DIES in the middle of a batch (small: nothing spilled yet; large: beyond SQLite's page cache)
+    for batch, npend, payload in ((5, 3, 10), (20000, 15000, 200)) + (((50000, 40000, 200), (20000, 15000, 1000)) if thorough else ()):
+        traces.append(crash_trace(tmp, batch, npend, payload))
+        whys.append(None)
+        hists.append((batch, [("write", "A")] * 0 + [("crash-after", f"{batch} committed + {npend} pending records of {payload} bytes")]))
+        ctx.case(("crash", batch, npend, payload))
     ctx.sample({"history": hist_key(hists[0]), "trace": traces[0]})
     path = os.path.join(common.scratch("c18"), "traces.json")
     tlc.write_json(path, traces)
